@@ -567,7 +567,13 @@ def run(tier, seed):
                     mechanism="wrong-value",
                 )
             if sig is None:
-                rep.inconclusive.append("no sync_paths observed")
+                # the call returned, but its path was never handed to the store for commit: this spelling did not end in
+                # the stored, committed result that the other spellings of the same binding end in
+                rep.violate(
+                    "keep of f%r spelled %r (%s) returned, but its path was not committed (no signature reached the store)" % (shape, spell, mode),
+                    {"shape": shape, "spelling": spell, "mode": mode, "src": src},
+                    mechanism="path-not-committed",
+                )
                 continue
             by_class.setdefault(_canon_bound(bound), []).append((mode, bound, spell, sig))
         # same binding => same signature
